@@ -24,6 +24,7 @@ MUTANTS = {
     'dh-point-swapped': (B, '_Point(x=x, y=y, curve=self.private_key.curve),', '_Point(x=y, y=x, curve=self.private_key.curve),', 'EccKey.dh', 'peer coordinates swapped in the multiplication'),
     'pubkey-scalar-plus-one': (B, 'public_key_jacobian = self._generator_jacobian * private_key', 'public_key_jacobian = self._generator_jacobian * (private_key + 1)', 'generate_public_key', 'public key of the wrong scalar'),
     'from-bytes-little-endian': (B, "d = int.from_bytes(d_bytes, byteorder='big', signed=False)\n        return EccKey(", "d = int.from_bytes(d_bytes, byteorder='little', signed=False)\n        return EccKey(", 'ecc_key_from_bytes', 'private scalar read little-endian'),
+    'resolve-lazy-prand-cache': ('notes/C14/mutant-lazy-cache.diff', None, None, 'AddressResolver.resolve,resolve_is_stateless', 'prand cache created lazily inside resolve (no new field in __init__)'),
     'resolve-no-hash-compare': (S, 'if local_hash == hash_part:', 'if local_hash[0:2] == hash_part[0:2]:', 'AddressResolver.resolve,resolve_is_stateless', 'only two of the three hash bytes compared'),
     'resolve-skips-first-key': (S, 'for irk, resolved_address in self.resolving_keys:\n            local_hash', 'for irk, resolved_address in self.resolving_keys[1:]:\n            local_hash', 'AddressResolver.resolve,resolve_is_stateless', 'first resolving key never tried'),
     'resolve-wrong-identity': (S, 'address=str(resolved_address), address_type=resolved_address_type', 'address=str(self.resolving_keys[0][1]), address_type=resolved_address_type', 'AddressResolver.resolve,resolve_is_stateless', 'identity of the first entry returned for any match'),
